@@ -55,7 +55,7 @@ Tick ==
   /\ lastNom # OwnNoTime
   /\ \E t \in {lastNom + OwnershipDelay - 1, lastNom + OwnershipDelay, lastNom + OwnershipDelay + 1, now + 1} :
        /\ t > now /\ now' = t
-       /\ Emit([m |-> "time", t |-> t], TRUE, o)
+       /\ Emit([m |-> "time", t |-> t, ns |-> IF t = lastNom + OwnershipDelay - 1 THEN 999999999 ELSE 0], TRUE, o)
   /\ UNCHANGED <<o, lastNom, intf>>
 
 \* Everything else the contract offers is NOT part of the handover machine: whatever the current admin (or anybody)
@@ -66,12 +66,21 @@ Interfere(k) ==
   /\ UNCHANGED <<o, now, lastNom>> /\ intf' = k
   /\ Emit([m |-> "interfere", op |-> k, s |-> o.admin], TRUE, o)
 
+\* A nomination confers NOTHING before it is accepted: the nominee (who is neither the admin nor a monitor) tries the
+\* admin's / monitors' operations - whenever, also after the time lock has expired - and must be refused. The harness
+\* reports the real outcome here (the digest carries FALSE).
+NomineeTries(k) ==
+  /\ o.pending \notin {OwnNone, o.admin, "mon1", "mon2"}
+  /\ UNCHANGED <<o, now, lastNom, intf>>
+  /\ Emit([m |-> "interfere", op |-> k, s |-> o.pending, judged |-> TRUE], FALSE, o)
+
 Next == /\ steps < MaxSteps /\ steps' = steps + 1
         /\ \/ \E s \in Who, x \in Who : Nominate(s, x)
            \/ \E s \in Who : Revoke(s)
            \/ \E s \in Who : Accept(s)
            \/ Tick
            \/ \E k \in Interference : Interfere(k)
+           \/ \E k \in Interference \ {"upgrade"} : NomineeTries(k)
 Spec == Init /\ [][Next]_vars
 
 \* C12: the admin changes only by acceptance from the nominee no earlier than 7 days after the
